@@ -1,8 +1,8 @@
 from __future__ import annotations
 
 import html
-import io
 import re
+import tempfile
 import typing
 
 from pygopherd.protocols.http import HTTPProtocol
@@ -120,7 +120,10 @@ class WAPProtocol(HTTPProtocol):
             self.handler.write(wfile)
             return
 
-        fakefile = io.BytesIO()
+        # In memory, but becomes a real file if a handler asks for a file
+        # descriptor (the script and decompression handlers pass it to a
+        # subprocess).
+        fakefile = tempfile.SpooledTemporaryFile()
         self.handler.write(fakefile)
         fakefile.seek(0)
         wfile.write(wmlheader.encode())
